@@ -17,6 +17,7 @@
 
 import logging
 import sys
+from pathlib import Path
 from typing import IO, Optional, Type, cast
 
 from jinja2 import Environment, FileSystemLoader, Template
@@ -82,6 +83,7 @@ def add_header_to_file(
     """Helper function."""
     # pylint: disable=too-many-arguments,too-many-locals
     result = 0
+    created_dot_license = False
     comment_style: Optional[Type[CommentStyle]] = NAME_STYLE_MAP.get(
         cast(str, style)
     )
@@ -100,6 +102,7 @@ def add_header_to_file(
             )
             out.write("\n")
             path = _determine_license_suffix_path(path)
+            created_dot_license = not path.exists()
             path.touch()
             comment_style = EmptyCommentStyle
 
@@ -171,5 +174,9 @@ def add_header_to_file(
         # TODO: This may need to be rephrased more elegantly.
         out.write(_("Successfully changed header of {path}").format(path=path))
         out.write("\n")
+
+    if result and created_dot_license:
+        # Do not leave behind the empty .license file of a failed annotation.
+        Path(path).unlink(missing_ok=True)
 
     return result
